@@ -30,13 +30,13 @@ ASSUMPTIONS = [
 ]
 BUDGET = {"quick": 350, "thorough": 7000}
 
-ROOT = "ns"
+ROOTS = ["ns", "ns", "bytes_util", "int8lib", "booleans", "voidspace"]
 
 
-def _read_main(ctx: Ctx, directory: str, what: str) -> typing.Any:
+def _read_main(ctx: Ctx, directory: str, what: str, root: str = "ns") -> typing.Any:
     import pydsdl
 
-    types, _ = guarded(pydsdl.read_namespace, os.path.join(directory, ROOT), [], what=what)
+    types, _ = guarded(pydsdl.read_namespace, os.path.join(directory, root), [], what=what)
     mains = [t for t in types if t.short_name == "Main"]
     require(len(mains) == 1, "main-definition-count", 1, [str(t) for t in types])
     return mains[0]
@@ -73,6 +73,9 @@ def _diff(exp: typing.Any, got: typing.Any) -> str:
 
 def check_mirror(case: typing.Any, ctx: Ctx) -> Info:
     model = case["model"]
+    ROOT = ROOTS[case.get("naming", 0) % len(ROOTS)]
+    naming = case.get("naming", 0) // len(ROOTS)
+    absolute = bool(case.get("absolute"))
     plans = [dict(defs.CANONICAL)]
     for f in case["formats"]:
         plans.append(f)
@@ -88,7 +91,7 @@ def check_mirror(case: typing.Any, ctx: Ctx) -> Info:
         observed = []
         expected = None
         for pi, fmt in enumerate(plans):
-            tb = TextBuilder(d, ROOT)
+            tb = TextBuilder(d, ROOT, naming=naming, absolute=absolute)
             text = defs.render(model, fmt, tb)
             if pi == 0:
                 tb.write()
@@ -96,7 +99,7 @@ def check_mirror(case: typing.Any, ctx: Ctx) -> Info:
             with open(os.path.join(d, ROOT, "Main.1.0.dsdl"), "w", newline="") as f:
                 f.write(text)
             texts.append(text)
-            t = _read_main(ctx, d, "read:" + ("canonical" if pi == 0 else "formatted"))
+            t = _read_main(ctx, d, "read:" + ("canonical" if pi == 0 else "formatted"), ROOT)
             got = defs.observed_fingerprint(t, with_docs=True)
             observed.append(got)
             if got != expected:
@@ -109,11 +112,11 @@ def check_mirror(case: typing.Any, ctx: Ctx) -> Info:
                 names = [a.name for a in sec.attributes]
                 require(names == [a.name for a in sec.fields] + [a.name for a in sec.constants], "attributes-order", "fields then constants", names)
         # canonical re-rendering of the returned model re-reads to an equal model
-        t = _read_main(ctx, d, "read:canonical-again")
+        t = _read_main(ctx, d, "read:canonical-again", ROOT)
         again_text = defs.canonical_text(t)
         with open(os.path.join(d, ROOT, "Main.1.0.dsdl"), "w", newline="") as f:
             f.write(again_text)
-        t2 = _read_main(ctx, d, "read:rerendered")
+        t2 = _read_main(ctx, d, "read:rerendered", ROOT)
         got2 = defs.observed_fingerprint(t2, with_docs=True)
         if got2 != expected:
             raise Violation("rerender:" + _diff(expected, got2), expected, got2, "re-rendered text %r" % again_text)
@@ -136,5 +139,12 @@ def check_mirror(case: typing.Any, ctx: Ctx) -> Info:
 
 
 def parts(ctx: Ctx) -> typing.List[Part]:
-    cases = st.fixed_dictionaries({"model": defs.definitions(), "formats": st.lists(defs.formats(), min_size=2, max_size=3)})
+    cases = st.fixed_dictionaries(
+        {
+            "model": defs.definitions(),
+            "formats": st.lists(defs.formats(), min_size=2, max_size=3),
+            "naming": st.one_of(st.just(0), st.integers(0, 71)),  # root namespace name and naming scheme of the dependencies
+            "absolute": st.booleans(),
+        }
+    )
     return [Part("mirror", cases, check_mirror, weight=1)]
